@@ -4,6 +4,7 @@ import (
 	"context"
 	"fmt"
 	"math/rand"
+	"net"
 	"sort"
 	"strings"
 	"sync"
@@ -75,6 +76,7 @@ type fifoProgram struct {
 	Gated    []int `json:"gated_servers"` // servers whose handlers hold (no release) until GateOpenAt
 	GateOpen int   `json:"gate_open_at"`
 	Slow     []int `json:"slow_servers"`
+	Early    []int `json:"early_release_servers,omitempty"` // servers whose handlers call Release at once and go on running for a while
 	Cancels  bool  `json:"has_cancellations"`
 	PCT      bool  `json:"pct_delays"`
 }
@@ -102,6 +104,14 @@ func genFifoProgram(rng *rand.Rand, thorough bool) *fifoProgram {
 	for i := 0; i < p.N; i++ {
 		if rng.Intn(3) == 0 {
 			p.Slow = append(p.Slow, i)
+		}
+	}
+	// (drawn from a generator of its own, so that the programs themselves stay what they were)
+	if er := rand.New(rand.NewSource(int64(nops)*7919 + int64(p.N))); er.Intn(3) == 0 {
+		for i := 0; i < p.N; i++ {
+			if er.Intn(2) == 0 {
+				p.Early = append(p.Early, i)
+			}
 		}
 	}
 	gated := map[int]bool{}
@@ -175,9 +185,9 @@ func genFifoProgram(rng *rand.Rand, thorough bool) *fifoProgram {
 func RunFifo(e *Env) {
 	R := e.R
 	R.Rule = "seeded random client programs of 20-200 operations over all 21 puppet methods (send-waiting and not, per-node functions skipping random subsets, quorum thresholds below n), issued by one goroutine or a baton-passing chain of 2-4; " +
-		"servers with gated (holding) and slow handlers so that requests pile up; send buffers {0,1,4,64}; n in 1..7; PCT delays at the hook points on half of the programs; a minority of programs cancel contexts; " +
+		"servers with gated (holding), slow and early-releasing handlers (Release at once, then run on for up to 0.3 ms; the generated code releases again on return) so that requests pile up; send buffers {0,1,4,64}; n in 1..7; PCT delays at the hook points on half of the programs; a minority of programs cancel contexts; " +
 		"oracle over server entry logs: per (server, connection) issue sequence numbers strictly increase in handler-entry order, no (server, call) twice, and without cancellation exactly one connection per server and every targeted (call, server) present; " +
-		"distinct = program shape hash; non-trivial = >= 2 servers or >= 2 goroutines"
+		"plus configurations created from address lists naming each server under two or three spellings of its address: no handler twice, issue order; distinct = program shape hash; non-trivial = >= 2 servers or >= 2 goroutines"
 	R.Assume("handler entry is recorded under the server's log mutex before the handler releases the connection, so log order = start order per connection")
 	rng := e.Rand(3)
 	nprog := e.Pick(400, 25000)
@@ -217,6 +227,83 @@ func RunFifo(e *Env) {
 		}(i, p)
 	}
 	wg.Wait()
+	for rep := 0; rep < e.Pick(4, 40); rep++ {
+		if e.Of > 1 && rep%e.Of != e.Batch {
+			continue
+		}
+		runFifoAliased(e, rep)
+	}
+}
+
+// runFifoAliased: a configuration created from an address list in which servers also appear under other spellings of their
+// addresses (leading-zero port, IPv4-mapped IPv6 literal). Such a list names every server once; no server starts the handler
+// of a call twice, and the calls are handled in issue order.
+func runFifoAliased(e *Env, rep int) {
+	R := e.R
+	n := 2 + rep%2
+	cl, err := h.NewCluster(h.Options{N: n, Block: true, DialTimeout: 2 * time.Second, SendBuffer: uint(rep%2) * 4})
+	if err != nil {
+		R.Inconc("cluster: " + err.Error())
+		return
+	}
+	defer cl.Close()
+	var addrs []string
+	for i, a := range cl.Addrs {
+		host, port, _ := net.SplitHostPort(a)
+		switch (rep + i) % 3 {
+		case 0:
+			addrs = append(addrs, a, host+":0"+port)
+		case 1:
+			addrs = append(addrs, "[::ffff:"+host+"]:"+port, a)
+		default:
+			addrs = append(addrs, a, "[::ffff:"+host+"]:"+port, host+":00"+port)
+		}
+	}
+	cfg, err := cl.Mgr.NewConfiguration(gorums.WithNodeList(addrs), cl.QS)
+	det := map[string]any{"address_list": addrs, "servers": cl.Addrs}
+	if err != nil {
+		R.Count("aliased.creation_rejected(judged by C14)", 1)
+		return
+	}
+	const calls = 40
+	want := map[uint64]uint64{}
+	for k := 0; k < calls; k++ {
+		tok := h.NewToken()
+		want[tok] = uint64(k + 1)
+		req := &puppet.Req{Call: tok, Seq: uint64(k + 1), Kind: 3}
+		cl.QS.Register(&h.CallMon{Token: tok, Orig: req, Decide: func(inv *h.Inv) (bool, int) { return len(inv.Keys) >= n, len(inv.Keys) }})
+		ctx, cancel := context.WithTimeout(context.Background(), 5*time.Second)
+		op := &Op{Method: []string{"QC", "Async", "Multi", "Corr", "AsyncPN", "CorrStream"}[k%6]}
+		t := h.Go("c03:aliased", func() {
+			if w := Invoke(cl, cfg, op, ctx, req); w != nil {
+				w()
+			}
+		})
+		h.Await(t, e.W)
+		cancel()
+	}
+	time.Sleep(20 * time.Millisecond)
+	for i, s := range cl.Srvs {
+		seen := map[uint64]int{}
+		last := uint64(0)
+		for _, en := range s.Log() {
+			if _, ok := want[en.Call]; !ok {
+				continue
+			}
+			seen[en.Call]++
+			if seen[en.Call] > 1 {
+				R.Violate("handler-started-twice", fmt.Sprintf("server %d started the handler of issue #%d %d times (configuration of size %d created from %d spellings of %d addresses)", i, en.Seq, seen[en.Call], cfg.Size(), len(addrs), n), det)
+				return
+			}
+			if en.Seq < last {
+				R.Violate("fifo-order", fmt.Sprintf("server %d started the handler of issue #%d after the handler of issue #%d", i, en.Seq, last), det)
+				return
+			}
+			last = en.Seq
+		}
+	}
+	R.Eval(fmt.Sprintf("aliased-address-list|n=%d|%d", n, rep), true)
+	R.Count("aliased.configurations_from_several_spellings_per_server", 1)
 }
 
 func runFifoProgram(e *Env, idx int, p *fifoProgram) {
@@ -236,6 +323,15 @@ func runFifoProgram(e *Env, idx int, p *fifoProgram) {
 	for _, s := range p.Slow {
 		slow[s] = true
 	}
+	early := map[int]bool{}
+	for _, s := range p.Early {
+		if !gated[s] {
+			early[s] = true
+		}
+	}
+	if len(early) > 0 {
+		R.Count("programs_with_early_releasing_servers", 1)
+	}
 	cl.SetBehaviour(func(c *h.HCall) (*puppet.Rep, error) {
 		// entry has been logged; the connection is still held
 		if gated[c.S.Index] {
@@ -243,6 +339,13 @@ func runFifoProgram(e *Env, idx int, p *fifoProgram) {
 			case <-gate:
 			case <-c.S.Done():
 				return nil, h.ErrSilent
+			}
+		}
+		if early[c.S.Index] {
+			// release the connection early (the generated code releases once more when the handler returns)
+			c.Ctx.Release()
+			if c.E.Serial%4 != 0 {
+				time.Sleep(time.Duration(c.E.Serial%4) * 100 * time.Microsecond)
 			}
 		}
 		if slow[c.S.Index] && c.E.Serial%3 == 0 {
